@@ -190,6 +190,8 @@ func c35(r *core.Run) {
 		r.Floor("C35.I1", "slicings of the token in decrypt", n, 2)
 	}
 	c35More(r)
+	c35Matcher(r)
+	c35MethodAnchored(r)
 }
 
 // roleInVariadic: the variadic slice is a fresh array whose element stores include the
